@@ -35,6 +35,14 @@ DEPENDS = ["C03", "C15", "C02"]      # reader contracts used at every read; the 
 def build(E, tier):
     cm.verify_fetch_cmd(E, names=("get", "gets", "gat", "gats"))
     cm.verify_fetch_many(E, names=("get", "gets"))
+    # the public wrappers hand the fetched value on unchanged (a falsy value is a value, not a miss): their `result` clauses count here
+    saved = cm.GROUP_PROP["result"]
+    cm.GROUP_PROP["result"] = "C04"
+    try:
+        cm.verify_public_fetch(E)
+        cm.verify_public_fetch_many(E)
+    finally:
+        cm.GROUP_PROP["result"] = saved
     roundtrip_lemma(E)
 
 
@@ -75,7 +83,9 @@ from pymemcache.serde import pickle_serde, compressed_serde
 rnd = random.Random(payload.get("seed", 0))
 values = [b"", b"v", b"a\r\nb", b"END\r\n", b"VALUE k 0 1\r\nx\r\nEND\r\n", b"tail-cr\r", b"\r\n", b"x" * 4095, b"y" * 4096, b"z" * 4097,
           bytes(rnd.getrandbits(8) for _ in range(300))]
-objs = ["text", "héllo", 7, -5, 10**30, True, None, 1.5, [1, {"a": (2, b"3")}], b"raw"]
+objs = ["text", "héllo", 7, -5, 10**30, True, None, 1.5, [1, {"a": (2, b"3")}], b"raw",
+        # equal and equal-hashing values of different types, falsy values (a falsy value is a value, not a miss)
+        1, 1.0, True, 0, 0.0, False, "", b"", [], {}, (), (1, 2), (1.0, 2.0), frozenset({1}), frozenset({1.0})]
 bad = None; n = 0
 def check(cond, what):
     global bad
@@ -131,7 +141,7 @@ for chunk in (4096, 1, 2, 3, 7):
                 n += 1
                 c2.set("o%d" % j, o)
                 g = c2.get("o%d" % j)
-                check(g == o and type(g) is type(o), dict(op="serde round trip", serde=type(serde).__name__, value=repr(o)[:40], got=repr(g)[:40], chunk=chunk))
+                check(g == o and type(g) is type(o) and repr(g) == repr(o), dict(op="serde round trip", serde=type(serde).__name__, value=repr(o)[:40], got=repr(g)[:40], chunk=chunk))
         c3 = Client(("h", 1), socket_module=srv.module(), key_prefix=prefix, default_noreply=False)
         c3.set("s", "text"); c3.set("i", 12)
         check(c3.get("s") == b"text" and c3.get("i") == b"12", dict(op="str/int without serde come back as encoded text", chunk=chunk))
